@@ -256,6 +256,11 @@ class FsmResult:
         self.states = states
 
 
+class _TransactionAbandoned(Exception):
+    """Internal helper to stop all processing of the current state machine cycle after the
+    transaction was abandoned."""
+
+
 def acknowledge_inactive_eof_pdu(eof_pdu: EofPdu, status: TransactionStatus) -> AckPdu:
     """This function can be used to fulfill chapter 4.7.2 of the CFDP standard: Every EOF PDU
     received from the CFDP sender entity MUST be acknowledged, even if the transaction ID of
@@ -420,14 +425,17 @@ class DestHandler:
         """
         if packet is not None:
             self._check_inserted_packet(packet)
-        if self.states.state == CfdpState.IDLE:
-            self.__idle_fsm(packet)
-            # Calling the FSM immediately would lead to an exception, user must send any PDUs which
-            # might have been generated (e.g. NAK PDUs to re-request metadata) first.
-            if self.packets_ready:
-                return FsmResult(self.states)
-        if self.states.state == CfdpState.BUSY:
-            self.__non_idle_fsm(packet)
+        try:
+            if self.states.state == CfdpState.IDLE:
+                self.__idle_fsm(packet)
+                # Calling the FSM immediately would lead to an exception, user must send any PDUs
+                # which might have been generated (e.g. NAK PDUs to re-request metadata) first.
+                if self.packets_ready:
+                    return FsmResult(self.states)
+            if self.states.state == CfdpState.BUSY:
+                self.__non_idle_fsm(packet)
+        except _TransactionAbandoned:
+            pass
         return FsmResult(self.states)
 
     def _check_inserted_packet(self, packet: GenericPduPacket) -> None:
@@ -1238,6 +1246,9 @@ class DestHandler:
         elif fh == FaultHandlerCode.ABANDON_TRANSACTION:
             self._abandon_transaction()
         self.cfg.default_fault_handlers.report_fault(transaction_id, cond, progress)
+        if fh == FaultHandlerCode.ABANDON_TRANSACTION:
+            # The handler was reset, nothing of the current cycle may be continued.
+            raise _TransactionAbandoned
         return fh
 
     def _notice_of_cancellation(self, condition_code: ConditionCode) -> None:
